@@ -1,11 +1,15 @@
 #!/bin/sh
-# tools/seed_confirm.sh <id>: confirm a sub-agent's seeded change in its worktree /tmp/wt_<id>: tests pass with it, demo fails with it and passes without
+# tools/seed_confirm.sh <id>: confirm a sub-agent's seeded change in its worktree /tmp/wt_<id> from its _seed/patch.diff:
+# tests pass with it, demo fails with it and passes without. (No git stash: the stash is shared by all worktrees.)
 W=/tmp/wt_$1
 cd $W || exit 9
+[ -s $W/_seed/patch.diff ] || git diff -- include src > $W/_seed/patch.diff
+git checkout -- include src
+git apply $W/_seed/patch.diff || { echo "patch.diff does not apply to HEAD"; exit 9; }
 echo "== patch"; git diff --stat -- include src | tail -3
-echo "== tests with change"; (cmake -G Ninja -S $W -B $W/_build -DCMAKE_BUILD_TYPE=RelWithDebInfo >/dev/null && cmake --build $W/_build >/dev/null && ctest --test-dir $W/_build -j8 --timeout 900 2>&1 | tail -3)
-echo "== demo with change"; (cd $W/_seed && sh ./build_and_run.sh >/tmp/seed_demo_with.log 2>&1; echo "rc=$?"; tail -3 /tmp/seed_demo_with.log)
-git stash -q
-echo "== demo without change"; (cd $W/_seed && sh ./build_and_run.sh >/tmp/seed_demo_without.log 2>&1; echo "rc=$?"; tail -3 /tmp/seed_demo_without.log)
-git stash pop -q
-git diff -- include src > $W/_seed/patch.diff
+echo "== tests with change"; (cmake -G Ninja -S $W -B $W/_build -DCMAKE_BUILD_TYPE=RelWithDebInfo >/dev/null 2>&1 && cmake --build $W/_build >/dev/null 2>&1 && ctest --test-dir $W/_build -j8 --timeout 900 2>&1 | tail -3)
+echo "== demo with change"; (cd $W/_seed && sh ./build_and_run.sh >/tmp/seed_demo_with_$1.log 2>&1; echo "rc=$?"; tail -3 /tmp/seed_demo_with_$1.log)
+git apply -R $W/_seed/patch.diff
+(cmake --build $W/_build >/dev/null 2>&1)
+echo "== demo without change"; (cd $W/_seed && sh ./build_and_run.sh >/tmp/seed_demo_without_$1.log 2>&1; echo "rc=$?"; tail -3 /tmp/seed_demo_without_$1.log)
+git apply $W/_seed/patch.diff
